@@ -140,7 +140,8 @@ func (b *Blob) getBytes() ([]byte, error) {
 	if err != nil {
 		return nil, err
 	}
-	b.bytes.Store(blob.NewBytes(buf))
+	// Not cached: views and the blobs they came from share one JS buffer, so a cached Go copy goes stale as soon as
+	// an aliasing blob writes (and handing out the cached slice itself let callers modify the cache).
 	return buf, nil
 }
 
